@@ -39,6 +39,10 @@ type FPos struct {
 	Ctx   *FCtx
 	In    ssa.Instruction
 	facts *ffact
+	pure  *pfact
+	// Resume: a walk started from this occurrence goes on with what the walk that found it knew (how the expanded calls
+	// on the way returned, what pure predicates answered) instead of starting without facts
+	Resume bool
 }
 
 // ReturnsFailure: the occurrence is a return whose error result is the error of an expanded call
@@ -199,6 +203,88 @@ type fstate struct {
 	b     *ssa.BasicBlock
 	i     int
 	facts *ffact
+	pure  *pfact
+}
+
+// pfact: what a pure predicate (a function of its arguments alone, without any effect) answered on the way taken, keyed by
+// the call written in the terms of the root function — the same question asked again, in whatever helper, gets the same
+// answer (`if expired(s, now)` in one helper, `expired(s, now)` again in the caller). Forgotten at every loop back edge.
+type pfact struct {
+	key  string
+	val  bool
+	next *pfact
+	sig  string
+}
+
+func (p *pfact) lookup(key string) (bool, bool) {
+	for x := p; x != nil; x = x.next {
+		if x.key == key {
+			return x.val, true
+		}
+	}
+	return false, false
+}
+
+func (p *pfact) signature() string {
+	if p == nil {
+		return ""
+	}
+	return p.sig
+}
+
+func withPure(p *pfact, key string, val bool) *pfact {
+	v := "0"
+	if val {
+		v = "1"
+	}
+	return &pfact{key: key, val: val, next: p, sig: fmt.Sprintf("%x%s;", len(key)*31+int(hashString(key)%1000003), v) + p.signature()}
+}
+
+func hashString(s string) uint32 {
+	h := uint32(2166136261)
+	for i := 0; i < len(s); i++ {
+		h = (h ^ uint32(s[i])) * 16777619
+	}
+	return h
+}
+
+// pureFn: fn and everything it reaches has no effect at all (no store access, bank call, clock, ...): its results depend on
+// its arguments alone.
+func (w *World) pureFn(fn *ssa.Function) bool {
+	if fn == nil || len(fn.Blocks) == 0 || !w.inSet[fn] {
+		return false
+	}
+	if w.pureMemo == nil {
+		w.pureMemo = map[*ssa.Function]bool{}
+	}
+	if v, ok := w.pureMemo[fn]; ok {
+		return v
+	}
+	w.pureMemo[fn] = false
+	ok := true
+	for g := range w.Reachable([]*ssa.Function{fn}) {
+		for _, e := range w.EffectsOf(g) {
+			switch e.Kind {
+			case "Panic", "Float":
+			default:
+				ok = false
+			}
+		}
+		for _, b := range g.Blocks {
+			for _, in := range b.Instrs {
+				if c, isCall := in.(ssa.CallInstruction); isCall && c.Common().IsInvoke() {
+					ok = false // an interface call may do anything
+				}
+				if u, isLoad := in.(*ssa.UnOp); isLoad && u.Op == token.MUL {
+					if _, isGlobal := u.X.(*ssa.Global); isGlobal {
+						ok = false
+					}
+				}
+			}
+		}
+	}
+	w.pureMemo[fn] = ok
+	return ok
 }
 
 // ffact records how an expanded call returned in this activation: through a return whose error
@@ -207,9 +293,11 @@ type fstate struct {
 // this correlation the expanded graph would contain the path "helper fails, caller carries on".
 type ffact struct {
 	call ssa.CallInstruction
-	idx  int    // result index the fact is about
-	val  bool   // error: true = non-nil; bool: the constant
-	cval string // a returned constant of an integer (enumeration) type: its exact value; "" otherwise
+	idx  int       // result index the fact is about
+	val  bool      // error: true = non-nil; bool: the constant
+	cval string    // a returned constant of an integer (enumeration) type: its exact value; "" otherwise
+	pv   ssa.Value // a bool variable (phi) whose value the activation has seen tested: the fact is about it (call = pvFact)
+	root ssa.Value // non-nil: the fact says which value the bool variable pv holds on the way taken (its operand for the edge walked)
 	next *ffact
 	sig  string
 }
@@ -221,6 +309,102 @@ func (f *ffact) lookup(call ssa.CallInstruction, idx int) (bool, bool) {
 		}
 	}
 	return false, false
+}
+
+// pvFact stands in the call slot of a fact about a tested bool variable (a nil call marks the start of a callee frame).
+var pvFact ssa.CallInstruction = &ssa.Call{}
+
+func (f *ffact) lookupPV(v ssa.Value) (bool, bool) {
+	for x := f; x != nil && x.call != nil; x = x.next {
+		if x.pv == v && x.root == nil {
+			return x.val, true
+		}
+	}
+	return false, false
+}
+
+// rootOf follows what is known of the way taken: the value a bool variable holds (through the variables it was copied from).
+func (f *ffact) rootOf(v ssa.Value) ssa.Value {
+	for i := 0; i < 8; i++ {
+		next := ssa.Value(nil)
+		for x := f; x != nil && x.call != nil; x = x.next {
+			if x.pv == v && x.root != nil {
+				next = x.root
+				break
+			}
+		}
+		if next == nil {
+			return v
+		}
+		v = next
+	}
+	return v
+}
+
+// withRoot records that the bool variable phi holds root on the way taken.
+func withRoot(f *ffact, phi, root ssa.Value) *ffact {
+	f = dropFacts(f, func(x *ffact) bool { return x.pv == phi && x.root != nil })
+	out := &ffact{call: pvFact, pv: phi, root: root, next: f}
+	out.sig = factSig(out) + f.signature()
+	return out
+}
+
+// withPV records that the bool variable v was seen to be val in this activation (dropping what was known of it).
+func withPV(f *ffact, v ssa.Value, val bool) *ffact {
+	f = dropFacts(f, func(x *ffact) bool { return x.pv == v && x.root == nil })
+	out := &ffact{call: pvFact, pv: v, val: val, next: f}
+	b := "0"
+	if val {
+		b = "1"
+	}
+	out.sig = "v" + v.Name() + b + ";" + f.signature()
+	return out
+}
+
+// dropFacts forgets the facts about bool variables accepted by drop, within the current activation.
+func dropFacts(f *ffact, drop func(*ffact) bool) *ffact {
+	hit := false
+	for x := f; x != nil && x.call != nil; x = x.next {
+		if x.pv != nil && drop(x) {
+			hit = true
+		}
+	}
+	if !hit {
+		return f
+	}
+	var keep []*ffact
+	x := f
+	for ; x != nil && x.call != nil; x = x.next {
+		if x.pv != nil && drop(x) {
+			continue
+		}
+		keep = append(keep, x)
+	}
+	out := x // the frame marker and everything below it stay as they are
+	for i := len(keep) - 1; i >= 0; i-- {
+		k := keep[i]
+		n := &ffact{call: k.call, idx: k.idx, val: k.val, cval: k.cval, pv: k.pv, root: k.root, next: out}
+		n.sig = factSig(n) + out.signature()
+		out = n
+	}
+	return out
+}
+
+func factSig(x *ffact) string {
+	v := "0"
+	if x.val {
+		v = "1"
+	}
+	if x.call == nil {
+		return "^;"
+	}
+	if x.pv != nil && x.root != nil {
+		return "r" + x.pv.Name() + "=" + x.root.Name() + ";"
+	}
+	if x.pv != nil {
+		return "v" + x.pv.Name() + v + ";"
+	}
+	return fmt.Sprint(int(x.call.Pos())) + ":" + string(rune('0'+x.idx)) + v + x.cval + ";"
 }
 
 func (f *ffact) signature() string {
@@ -253,7 +437,7 @@ func withFactC(f *ffact, call ssa.CallInstruction, idx int, val bool, cval strin
 	}
 	var out *ffact
 	for i := len(keep) - 1; i >= 0; i-- {
-		out = &ffact{call: keep[i].call, idx: keep[i].idx, val: keep[i].val, cval: keep[i].cval, next: out}
+		out = &ffact{call: keep[i].call, idx: keep[i].idx, val: keep[i].val, cval: keep[i].cval, pv: keep[i].pv, root: keep[i].root, next: out}
 	}
 	out = &ffact{call: call, idx: idx, val: val, cval: cval, next: out}
 	sig := ""
@@ -264,6 +448,10 @@ func withFactC(f *ffact, call ssa.CallInstruction, idx int, val bool, cval strin
 		}
 		if x.call == nil {
 			sig += "^;"
+			continue
+		}
+		if x.pv != nil {
+			sig += factSig(x)
 			continue
 		}
 		sig += fmt.Sprint(int(x.call.Pos())) + ":" + string(rune('0'+x.idx)) + v + x.cval + ";"
@@ -459,8 +647,8 @@ func recordFacts(facts *ffact, call ssa.CallInstruction, ri int, rv ssa.Value, r
 	return facts
 }
 
-func feasibleSucc(ctx *FCtx, b *ssa.BasicBlock, facts *ffact) (onlyTrue, onlyFalse bool) {
-	if facts == nil || len(b.Instrs) == 0 {
+func feasibleSucc(w *World, ctx *FCtx, b *ssa.BasicBlock, facts *ffact) (onlyTrue, onlyFalse bool) {
+	if len(b.Instrs) == 0 {
 		return false, false
 	}
 	iff, ok := b.Instrs[len(b.Instrs)-1].(*ssa.If)
@@ -507,6 +695,14 @@ func feasibleSucc(ctx *FCtx, b *ssa.BasicBlock, facts *ffact) (onlyTrue, onlyFal
 		} else if isNilConst(x.X) {
 			other = x.Y
 		}
+		if other != nil && !isErrorType(other.Type()) && ctx != nil && ctx.en != nil {
+			// a field of the record this activation was bound to (`if c.receiver != nil` with the collector made as
+			// &collector{} or &collector{receiver: addr}): nil when the field was left unset, not nil when it holds an address
+			// that was parsed successfully where the record was made
+			if isNil, known := nilness(ctx.Apply(w.ExprOf(other))); known {
+				return decide((op == "==") == isNil)
+			}
+		}
 		if other == nil || !isErrorType(other.Type()) {
 			return false, false
 		}
@@ -516,6 +712,15 @@ func feasibleSucc(ctx *FCtx, b *ssa.BasicBlock, facts *ffact) (onlyTrue, onlyFal
 		}
 		if nonNil, ok := facts.lookup(call, idx); ok {
 			return decide((op == "!=") == nonNil)
+		}
+	case *ssa.Phi:
+		// a bool variable this activation has already seen tested (`switch { case a && b: ...; case a: ... }`)
+		r := facts.rootOf(x)
+		if cst, ok := r.(*ssa.Const); ok && cst.Value != nil && cst.Value.Kind() == constant.Bool {
+			return decide(constant.BoolVal(cst.Value))
+		}
+		if v, ok := facts.lookupPV(r); ok {
+			return decide(v)
 		}
 	case *ssa.Call:
 		if v, ok := facts.lookup(x, 0); ok {
@@ -564,13 +769,20 @@ func (w *World) FlatWalk(root *FCtx, from *FPos, cut *FlatCut, visit func(FPos) 
 		for x := from.Ctx; x != nil && x.Up != nil; x = x.Up {
 			facts = &ffact{call: nil, next: facts, sig: "^" + facts.signature()}
 		}
-		q = append(q, fstate{ctx: from.Ctx, b: from.In.Block(), i: InstrIndex(from.In) + 1, facts: facts})
+		st := fstate{ctx: from.Ctx, b: from.In.Block(), i: InstrIndex(from.In) + 1, facts: facts}
+		if from.Resume {
+			st.facts, st.pure = from.facts, from.pure
+			if _, isRet := from.In.(*ssa.Return); isRet {
+				st.i = InstrIndex(from.In) // the return itself is walked again: it hands the facts to the caller
+			}
+		}
+		q = append(q, st)
 	}
 	seen := map[fkey]bool{}
 	for len(q) > 0 {
 		s := q[len(q)-1]
 		q = q[:len(q)-1]
-		k := fkey{s.ctx, s.b.Index, s.i, s.facts.signature()}
+		k := fkey{s.ctx, s.b.Index, s.i, s.facts.signature() + "|" + s.pure.signature()}
 		if seen[k] {
 			continue
 		}
@@ -578,7 +790,7 @@ func (w *World) FlatWalk(root *FCtx, from *FPos, cut *FlatCut, visit func(FPos) 
 		stopped := false
 		for i := s.i; i < len(s.b.Instrs); i++ {
 			in := s.b.Instrs[i]
-			if !visit(FPos{s.ctx, in, s.facts}) {
+			if !visit(FPos{Ctx: s.ctx, In: in, facts: s.facts, pure: s.pure}) {
 				return true
 			}
 			if cut.Barrier != nil && cut.Barrier(s.ctx, in) {
@@ -594,7 +806,7 @@ func (w *World) FlatWalk(root *FCtx, from *FPos, cut *FlatCut, visit func(FPos) 
 			case *ssa.Call:
 				if h := w.expandable(s.ctx, x); h != nil && (cut.NoExpand == nil || !cut.NoExpand(h)) {
 					// the callee starts without facts; the caller's facts are restored on return (kept in the child state chain)
-					q = append(q, fstate{ctx: w.child(s.ctx, x, h), b: h.Blocks[0], i: 0, facts: &ffact{call: nil, next: s.facts, sig: "^" + s.facts.signature()}})
+					q = append(q, fstate{ctx: w.child(s.ctx, x, h), b: h.Blocks[0], i: 0, facts: &ffact{call: nil, next: s.facts, sig: "^" + s.facts.signature()}, pure: s.pure})
 					stopped = true // the continuation is reached through the callee's returns
 				}
 			case *ssa.Return:
@@ -629,6 +841,15 @@ func (w *World) FlatWalk(root *FCtx, from *FPos, cut *FlatCut, visit func(FPos) 
 					}
 					for ri, rv := range x.Results {
 						callerFacts = recordFacts(callerFacts, s.ctx.Call, ri, rv, x)
+						if c2, i2 := errSource(rv); c2 != nil && ri != ErrIndex(g) {
+							// `return k.classify(...)`: the verdict (or answer) of the inner step, when this activation knows it, is
+							// this call's
+							if cv, known := s.facts.lookupConst(c2, i2); known {
+								callerFacts = withFactC(callerFacts, s.ctx.Call, ri, false, cv)
+							} else if v, known := s.facts.lookup(c2, i2); known && rv.Type().String() == "bool" {
+								callerFacts = withFact(callerFacts, s.ctx.Call, ri, v)
+							}
+						}
 						if cst, ok := rv.(*ssa.Const); ok && cst.Value != nil && rv.Type().String() == "bool" {
 							callerFacts = withFact(callerFacts, s.ctx.Call, ri, constBool(cst))
 						} else if ok && cst.Value != nil && cst.Value.Kind() == constant.Int {
@@ -640,7 +861,7 @@ func (w *World) FlatWalk(root *FCtx, from *FPos, cut *FlatCut, visit func(FPos) 
 							}
 						}
 					}
-					q = append(q, fstate{ctx: s.ctx.Up, b: cb, i: InstrIndex(s.ctx.Call) + 1, facts: callerFacts})
+					q = append(q, fstate{ctx: s.ctx.Up, b: cb, i: InstrIndex(s.ctx.Call) + 1, facts: callerFacts, pure: s.pure})
 				}
 				stopped = true
 			case *ssa.Panic:
@@ -654,7 +875,59 @@ func (w *World) FlatWalk(root *FCtx, from *FPos, cut *FlatCut, visit func(FPos) 
 			continue
 		}
 		edges := w.flatEdges(cut, s.ctx)
-		onlyTrue, onlyFalse := feasibleSucc(s.ctx, s.b, s.facts)
+		onlyTrue, onlyFalse := feasibleSucc(w, s.ctx, s.b, s.facts)
+		var tested ssa.Value
+		testedNeg := false
+		var dynCut [2]bool
+		pureKey, pureNeg, pureKnown := "", false, false
+		if iff, ok := s.b.Instrs[len(s.b.Instrs)-1].(*ssa.If); ok {
+			cond := iff.Cond
+			for {
+				if u, ok := cond.(*ssa.UnOp); ok && u.Op.String() == "!" {
+					cond, pureNeg = u.X, !pureNeg
+					continue
+				}
+				break
+			}
+			if cc, ok := cond.(*ssa.Call); ok && cc.Type().String() == "bool" && !cc.Call.IsInvoke() && w.pureFn(cc.Call.StaticCallee()) {
+				pureKey = s.ctx.Apply(w.ExprOf(cc)).String()
+				if v, known := s.pure.lookup(pureKey); known {
+					pureKnown = true
+					if v != pureNeg {
+						onlyTrue, onlyFalse = true, false
+					} else {
+						onlyTrue, onlyFalse = false, true
+					}
+				}
+			}
+		}
+		if iff, ok := s.b.Instrs[len(s.b.Instrs)-1].(*ssa.If); ok {
+			cond := iff.Cond
+			for {
+				if u, ok := cond.(*ssa.UnOp); ok && u.Op.String() == "!" {
+					cond, testedNeg = u.X, !testedNeg
+					continue
+				}
+				break
+			}
+			if ph, ok := cond.(*ssa.Phi); ok && ph.Type().String() == "bool" {
+				tested = s.facts.rootOf(ph)
+				// what the variable holds on the way taken may be a test the cut is about (`due := !c.IsNil() && c.IsPositive()`
+				// tested later, or handed on as part of a verdict)
+				if tested != ssa.Value(ph) && cut != nil && cut.Matcher != nil {
+					if _, isConst := tested.(*ssa.Const); !isConst {
+						for si := 0; si < 2; si++ {
+							if w.holds(s.ctx.Fn, tested, (si == 0) != testedNeg, cut.Matcher, s.ctx.en, cut.Depth, map[holdKey]bool{}) {
+								dynCut[si] = true
+							}
+						}
+					}
+				}
+				if _, isConst := tested.(*ssa.Const); isConst {
+					tested = nil
+				}
+			}
+		}
 		for si, succ := range s.b.Succs {
 			if edges != nil && edges[[2]int{s.b.Index, si}] {
 				continue
@@ -662,7 +935,61 @@ func (w *World) FlatWalk(root *FCtx, from *FPos, cut *FlatCut, visit func(FPos) 
 			if onlyTrue && si == 1 || onlyFalse && si == 0 {
 				continue
 			}
-			q = append(q, fstate{ctx: s.ctx, b: succ, i: 0, facts: s.facts})
+			facts := s.facts
+			if tested != nil {
+				if dynCut[si] {
+					continue
+				}
+				facts = withPV(facts, tested, (si == 0) != testedNeg)
+			}
+			// a value computed anew where control goes next is no longer what was tested
+			facts = dropFacts(facts, func(x *ffact) bool {
+				if x.root != nil {
+					return false
+				}
+				in, ok := x.pv.(ssa.Instruction)
+				return ok && in.Block() == succ
+			})
+			// the bool variables of the next block take the operand of the edge walked
+			pi, npi := -1, 0
+			for k, p := range succ.Preds {
+				if p == s.b {
+					pi = k
+					npi++
+				}
+			}
+			var phis []*ssa.Phi
+			var roots []ssa.Value
+			for _, in := range succ.Instrs {
+				ph, ok := in.(*ssa.Phi)
+				if !ok {
+					break
+				}
+				if ph.Type().String() != "bool" {
+					continue
+				}
+				phis = append(phis, ph)
+				if npi == 1 && pi < len(ph.Edges) {
+					roots = append(roots, s.facts.rootOf(ph.Edges[pi]))
+				} else {
+					roots = append(roots, nil)
+				}
+			}
+			for k, ph := range phis {
+				ph := ph
+				facts = dropFacts(facts, func(x *ffact) bool { return x.pv == ssa.Value(ph) })
+				if roots[k] != nil && roots[k] != ssa.Value(ph) {
+					facts = withRoot(facts, ph, roots[k])
+				}
+			}
+			pure := s.pure
+			if pureKey != "" && !pureKnown {
+				pure = withPure(pure, pureKey, (si == 0) != pureNeg)
+			}
+			if succ.Dominates(s.b) {
+				pure = nil // around a loop the same words ask about other values
+			}
+			q = append(q, fstate{ctx: s.ctx, b: succ, i: 0, facts: facts, pure: pure})
 		}
 	}
 	return false
@@ -1151,6 +1478,10 @@ func (p FPos) FactsString() string {
 			out += "^ "
 			continue
 		}
+		if x.pv != nil {
+			out += fmt.Sprintf("[%s val=%v] ", x.pv.Name(), x.val)
+			continue
+		}
 		out += fmt.Sprintf("[%s idx=%d val=%v c=%s] ", x.call.String(), x.idx, x.val, x.cval)
 	}
 	return out
@@ -1359,4 +1690,42 @@ func (pi PhiInstance) Value(v ssa.Value) ssa.Value {
 func (c *FCtx) ArgValue(p *ssa.Parameter) ssa.Value {
 	_, v := argOf(c, p)
 	return v
+}
+
+// nilness: e is certainly nil (an unset field, the nil constant) or certainly not (an address handed back by a successful
+// AccAddressFromBech32 — which refuses the empty string — or a value made on the spot).
+func nilness(e *Expr) (isNil, known bool) {
+	if e == nil {
+		return false, false
+	}
+	switch e.Op {
+	case "zero":
+		return true, true
+	case "const":
+		if e.Name == "nil" {
+			return true, true
+		}
+	case "res":
+		if e.Name == "0" && len(e.Args) == 1 && e.Args[0].Op == "call" && strings.HasSuffix(e.Args[0].Name, "types.AccAddressFromBech32") {
+			return false, true
+		}
+	case "makeslice", "alloc", "ref", "struct":
+		return false, true
+	case "phi":
+		first := true
+		var v bool
+		for _, a := range e.Args {
+			n, k := nilness(a)
+			if !k {
+				return false, false
+			}
+			if first {
+				v, first = n, false
+			} else if v != n {
+				return false, false
+			}
+		}
+		return v, !first
+	}
+	return false, false
 }
